@@ -36,7 +36,14 @@ impl DNSIterable for QuestionIterator<'_> {
     }
 
     fn recompute_rr(&mut self) {
-        self.rr_iterator.recompute();
+        // A question has no TTL/rdlen/rdata: it ends right after its type and class
+        let offset = self
+            .rr_iterator
+            .offset
+            .expect("recompute_rr() called prior to iterating over RRs");
+        let name_end = RRIterator::skip_name(self.rr_iterator.parsed_packet.packet(), offset);
+        self.rr_iterator.name_end = name_end;
+        self.rr_iterator.offset_next = name_end + DNS_RR_QUESTION_HEADER_SIZE;
     }
 
     fn recompute_sections(&mut self) {
